@@ -90,9 +90,27 @@ META = {
         "Pyoda.GenAgree.C12.gen_LocalDate_lt_eq", "Pyoda.GenAgree.C12.gen_LocalDate_le_eq",
         "Pyoda.GenAgree.C12.gen_LocalDate_gt_eq", "Pyoda.GenAgree.C12.gen_LocalDate_ge_eq",
         "Pyoda.GenAgree.C12.gen_LocalDate_compareTo_eq", "Pyoda.GenAgree.C12.gen_LocalDate_compareToNone_eq",
+        "Pyoda.GenAgree.C12.gen_LocalDate_hash_eq", "Pyoda.GenAgree.C12.gen_LocalDate_calendar_eq",
+        "Pyoda.GenAgree.C12.gen_LocalDateTime_calendar_eq", "Pyoda.GenAgree.C12.gen_LocalDateTime_beq_eq",
+        "Pyoda.GenAgree.C12.gen_LocalDateTime_bne_eq", "Pyoda.GenAgree.C12.gen_LocalDateTime_equals_eq",
+        "Pyoda.GenAgree.C12.gen_LocalDateTime_compareTo_eq", "Pyoda.GenAgree.C12.gen_LocalDateTime_compareToNone_eq",
+        "Pyoda.GenAgree.C12.gen_LocalDateTime_lt_eq", "Pyoda.GenAgree.C12.gen_LocalDateTime_le_eq",
+        "Pyoda.GenAgree.C12.gen_LocalDateTime_gt_eq", "Pyoda.GenAgree.C12.gen_LocalDateTime_ge_eq",
+        "Pyoda.GenAgree.C12.gen_YearMonth_calendarOrdinal_eq", "Pyoda.GenAgree.C12.gen_YearMonth_yearMonthDay_eq",
+        "Pyoda.GenAgree.C12.gen_YearMonth_trustedCompareTo_eq", "Pyoda.GenAgree.C12.gen_YearMonth_beq_eq",
+        "Pyoda.GenAgree.C12.gen_YearMonth_bne_eq", "Pyoda.GenAgree.C12.gen_YearMonth_equals_eq",
+        "Pyoda.GenAgree.C12.gen_YearMonth_hash_eq", "Pyoda.GenAgree.C12.gen_YearMonth_lt_eq",
+        "Pyoda.GenAgree.C12.gen_YearMonth_le_eq", "Pyoda.GenAgree.C12.gen_YearMonth_gt_eq",
+        "Pyoda.GenAgree.C12.gen_YearMonth_ge_eq", "Pyoda.GenAgree.C12.gen_YearMonth_compareTo_eq",
+        "Pyoda.GenAgree.C12.gen_YearMonth_compareToNone_eq", "Pyoda.GenAgree.C12.gen_AnnualDate_beq_eq",
+        "Pyoda.GenAgree.C12.gen_AnnualDate_bne_eq", "Pyoda.GenAgree.C12.gen_AnnualDate_equals_eq",
+        "Pyoda.GenAgree.C12.gen_AnnualDate_hash_eq", "Pyoda.GenAgree.C12.gen_AnnualDate_compareTo_eq",
+        "Pyoda.GenAgree.C12.gen_AnnualDate_compareToNone_eq", "Pyoda.GenAgree.C12.gen_AnnualDate_lt_eq",
+        "Pyoda.GenAgree.C12.gen_AnnualDate_le_eq", "Pyoda.GenAgree.C12.gen_AnnualDate_gt_eq",
+        "Pyoda.GenAgree.C12.gen_AnnualDate_ge_eq",
     ],
     "trusted_base": [
-        "translator tie (tools/py2lean.py; GenAgreeC12): _YearMonthDay (both _ctor forms, _year/_month/_day, _with_calendar_ordinal, compare_to, == != < <= > >=, equals, __hash__), _YearMonthDayCalendar (both _ctor forms, _calendar_ordinal, _year/_month/_day, _to_year_month_day, ==, equals, __hash__), the default calculator's compare, Offset and LocalTime (== != < <= > >=, compare_to incl. None, equals, the __hash__ key), LocalDate (__calendar_ordinal, _year_month_day, __trusted_compare_to, == !=, < <= > >= and compare_to with the calendar guard) are re-translated from the source on every run and proved equal to the Compare model: the bit packing for ANY year and 5-bit month / 6-bit day / 6-bit ordinal fields. CalendarSystem._compare is an abstract callee of the LocalDate members (the theorems instantiate it by calCompare on the unpacked values); _calendar_ordinal goes through the _CalendarOrdinal enum (equal to the model for a field that names a calendar). Duration/Instant comparisons: GenAgreeC03. Outside the tie: the Hebrew calculator's compare, LocalDateTime, YearMonth, AnnualDate, Offset*/Interval/ZoneInterval equality (C11/C18/C05 ties cover their ==), max/min (builtins), the outer hash() of objects",
+        "translator tie (tools/py2lean.py; GenAgreeC12): _YearMonthDay (both _ctor forms, _year/_month/_day, _with_calendar_ordinal, compare_to, == != < <= > >=, equals, __hash__), _YearMonthDayCalendar (both _ctor forms, _calendar_ordinal, _year/_month/_day, _to_year_month_day, ==, equals, __hash__), the default calculator's compare, Offset and LocalTime (== != < <= > >=, compare_to incl. None, equals, the __hash__ key), LocalDate (__calendar_ordinal, _year_month_day, __trusted_compare_to, == !=, < <= > >= and compare_to with the calendar guard, __hash__, calendar), LocalDateTime (calendar, == != equals, compare_to incl. None, < <= > >= with the calendar-identity guard), YearMonth (the same members as LocalDate, on __start_of_month) and AnnualDate (== != equals __hash__ compare_to incl. None < <= > >=) are re-translated from the source on every run and proved equal to the Compare model: the bit packing for ANY year and 5-bit month / 6-bit day / 6-bit ordinal fields. CalendarSystem._compare is an abstract callee of the LocalDate members (the theorems instantiate it by calCompare on the unpacked values); _calendar_ordinal goes through the _CalendarOrdinal enum (equal to the model for a field that names a calendar). Duration/Instant comparisons: GenAgreeC03. The builtin hash(obj) inside a __hash__ is the model's objHash applied to the translated __hash__ of the object; a CalendarSystem object is carried as its ordinal (CalendarSystem._for_ordinal keeps one object per ordinal and calendars are compared by identity; hand-written, PyodaGen/GlueC12.lean). Outside the tie: the Hebrew calculator's compare, LocalDateTime.__hash__ (_hash_code_helper over a calendar object), Offset*/Interval/ZoneInterval equality (C11/C18/C05 ties cover their ==), max/min (builtins)",
         "CPython: hash(int) is reduction modulo 2^61-1 with -1 mapped to -2; a __hash__ result outside the Py_ssize_t range is reduced the same way; x << k | y equals x*2^k + y for 0 <= y < 2^k; built-in min/max return the first argument unless the second is strictly smaller/greater",
         "hash(str) and hash(CalendarSystem) (object identity) are inputs of the modelled hash functions, not modelled",
         "the hypothesis wfCheck (Heb.cal true) = true of hebrewScriptural_cmp_iff_days / _lt_iff_days is discharged by EVALUATING the executable checker on the compiled calendar driver (op `cal.wf 5`, all 9999 years, in every run of this check and of C01; Lean compiler trusted for that step); WF c of the generic *_cmp_iff_days theorems is the hypothesis of property C01, established there for all 19 calendars",
